@@ -155,6 +155,10 @@ def run_case(case: dict[str, Any]) -> dict[str, Any]:
                     ts = last_ts + (timedelta(0) if case.get("allow_equal_ts") and ts == last_ts
                                     else timedelta(microseconds=1))
                 last_ts = ts
+                tzm = case["series"][i].get("tz_min") if i < len(case.get("series", [])) else None
+                if tzm:
+                    # the same instant, written in the source's own (non-UTC) zone
+                    ts = ts.astimezone(timezone(timedelta(minutes=tzm)))
                 uid[0] += 1
                 my = float(uid[0])
                 if val_kind == "zero":
